@@ -86,6 +86,10 @@ pub struct Sc {
     /// threshold is then either still buffered or in a block not yet scanned.)
     #[serde(default)]
     pub raise_before_max: Option<ThresholdSpec>,
+    /// Python tier only: after the first hit, score the same striped sequence with another motif of this
+    /// width (which may re-size the sequence's matrix under the live scanner), then keep iterating.
+    #[serde(default)]
+    pub py_poke_width: Option<usize>,
 }
 
 // --- reference model ---------------------------------------------------------------------------
@@ -505,6 +509,7 @@ pub fn gen_world(r: &mut Prng, idx: u64, prop: &str, forced: Option<(usize, usiz
         own_buffer: r.chance(1, 5),
         nexts,
         then,
+        py_poke_width: None,
         raise_before_max: if then == Then::Max && nexts > 0 && r.chance(1, 4) {
             Some(*r.pick(&[ThresholdSpec::AtRank(0), ThresholdSpec::AtRank(1), ThresholdSpec::BetweenRanks(0), ThresholdSpec::AboveMax, ThresholdSpec::AtRank(3)]))
         } else {
